@@ -43,7 +43,7 @@ ASSUMPTIONS = [
 RULE = ('one evaluation = one (macro, goal) pair submitted to check_proof, or one solver query of part 2/3; distinct = distinct accepted sequents; '
         'non-trivial = accepted by the macro (it reached the truth oracle)')
 EXPLANATION = ('accepted sequents are translated to z3 with the library meaning of the arithmetic constants and proved; FP: exists numerals. float-eval(goal) and not exact(goal), solved in QF_FPBV')
-BUDGET_S = {'quick': 240, 'thorough': 1500}
+BUDGET_S = {'quick': 240, 'thorough': 900}
 
 MACROS = ['nat_eval', 'int_eval', 'int_const_ineq', 'real_eval', 'real_const_eq', 'real_compare', 'real_const_ineq', 'real_norm', 'const_inequality']
 
